@@ -634,3 +634,29 @@ def r7_uris(chk, fx):
             ok = lits == [uri]
         chk.instance("C09/R7", "uri(%s) = %s (inverse of from_str)" % (var, lits), t2["def"], None, holds=ok,
                      key="C09/R7 uri %s" % var)
+
+
+# ---------------------------------------------------------------------------------------------
+def run_thorough(ctx):
+    """Compile-fail witnesses (type-level remainder of C09/R5): rustdoc compile_fail tests with error codes, plus compiling twins."""
+    import os
+    import re
+    import shutil
+    import subprocess
+    from vlib import gen
+    chk = ctx.chk
+    wdir = os.path.join(gen.VERIF, "witness")
+    shutil.copy(os.path.join(gen.REPO, "Cargo.lock"), os.path.join(wdir, "Cargo.lock"))
+    env = dict(os.environ, CARGO_NET_OFFLINE="true", CARGO_TARGET_DIR=os.path.join(gen.WORK, "target", "witness"))
+    env.pop("RUSTC_WORKSPACE_WRAPPER", None)
+    r = subprocess.run(["cargo", "+nightly", "test", "--doc", "--offline"], cwd=wdir, env=env, capture_output=True, text=True)
+    out = r.stdout + r.stderr
+    tests = re.findall(r"^test (src/lib\.rs - .*?) \.\.\. (\w+)", out, flags=re.M)
+    if not tests:
+        raise F.AnchorLost("compile-fail witnesses did not run: %s" % out[-400:])
+    for name, res in tests:
+        kind = "compile_fail witness" if "compile fail" in name else "compiling twin"
+        chk.instance("C09/R5", "%s: %s" % (kind, name.replace("src/lib.rs - ", "")), "verif-witness", None, holds=res == "ok",
+                     key="C09/R5 witness %s" % re.sub(r" \(line \d+\)", "", name.replace("src/lib.rs - ", "")))
+    chk.floor("C09/R5 witnesses", len(tests), 9)
+    chk.extra["witness_cmd"] = "cargo +nightly test --doc --offline (in /verif/witness, path-depends on /repo/netconf)"
